@@ -270,6 +270,9 @@ def run_check(prop, tier, verif_seed, nruns, jobs, wall_cap, evidence_path=None,
               f'held={agg["held"]} violating_runs={len(agg["viol"])} harness_errors={len(agg["herr"])} '
               f'timeouts={len(agg["tout"])} transitions={len(agg["transitions"])} wall={wall:.1f}s '
               f'digest={batch_digest[:12]}')
+        if agg['faults']:
+            # which fault kinds really fired in this batch (a kind stuck at 0 means its seam no longer reaches the code)
+            print('  faults fired: ' + ' '.join(f'{k}={v}' for k, v in sorted(agg['faults'].items())))
         for l in out_lines:
             print(l)
     code = 0
